@@ -1,21 +1,552 @@
 package main
 
-// Adversary plays the Byzantine members (and outsiders with valid keys). It knows the Byzantine
-// secrets and everything ever sent (it may replay any signature seen on the wire).
+import (
+	"fmt"
+
+	"github.com/orbs-network/lean-helix-go/services/interfaces"
+	"github.com/orbs-network/lean-helix-go/services/randomseed"
+	"github.com/orbs-network/lean-helix-go/spec/types/go/primitives"
+	"github.com/orbs-network/lean-helix-go/spec/types/go/protocol"
+)
+
+// Adversary plays the Byzantine committee members and outsiders with valid keys. It owns their
+// secrets, sees everything ever sent (and may replay any signature seen on the wire), and may use
+// the honest keys ONLY to sign payloads of a different instance (correct nodes of other instances
+// sign with the same keys) — every call site that does so passes a foreign instance id.
 type Adversary struct {
-	net *Net
+	net       *Net
+	km        *FakeKeyManager
+	byzIds    [][]byte
+	outsiders [][]byte
+	nextBlock uint64
+	BadBlocks map[uint64]bool // blocks every correct consumer rejects
 }
 
-func NewAdversary(net *Net) *Adversary { return &Adversary{net: net} }
+func NewAdversary(net *Net) *Adversary {
+	a := &Adversary{net: net, km: &FakeKeyManager{w: net.w}, BadBlocks: map[uint64]bool{}}
+	for _, m := range net.members {
+		if net.byz[string(m.Id)] {
+			a.byzIds = append(a.byzIds, m.Id)
+		}
+	}
+	for i := 0; i < 2; i++ {
+		a.outsiders = append(a.outsiders, []byte{0xee, byte(i)})
+	}
+	return a
+}
 
+// ---- message construction with arbitrary field values
+
+func (a *Adversary) refB(t protocol.MessageType, inst, h, v uint64, hash []byte) *protocol.BlockRefBuilder {
+	return &protocol.BlockRefBuilder{MessageType: t, InstanceId: primitives.InstanceId(inst), BlockHeight: primitives.BlockHeight(h), View: primitives.View(v), BlockHash: hash}
+}
+
+func (a *Adversary) sign(key []byte, h uint64, raw []byte) []byte { return a.km.SignAs(key, h, raw) }
+
+func (a *Adversary) senderB(key []byte, h uint64, raw []byte) *protocol.SenderSignatureBuilder {
+	return &protocol.SenderSignatureBuilder{MemberId: key, Signature: a.sign(key, h, raw)}
+}
+
+func (a *Adversary) ppContent(key []byte, t protocol.MessageType, inst, h, v uint64, hash []byte) *protocol.PreprepareContentBuilder {
+	ref := a.refB(t, inst, h, v, hash)
+	return &protocol.PreprepareContentBuilder{SignedHeader: ref, Sender: a.senderB(key, h, ref.Build().Raw())}
+}
+
+func (a *Adversary) mkPP(key []byte, inst, h, v uint64, b *FakeBlock) *interfaces.ConsensusRawMessage {
+	var blk interfaces.Block
+	var hash []byte
+	if b != nil {
+		blk, hash = b, blockHash(b)
+	}
+	return interfaces.NewPreprepareMessage(a.ppContent(key, protocol.LEAN_HELIX_PREPREPARE, inst, h, v, hash).Build(), blk).ToConsensusRawMessage()
+}
+
+func (a *Adversary) mkP(key []byte, t protocol.MessageType, inst, h, v uint64, hash []byte) *interfaces.ConsensusRawMessage {
+	ref := a.refB(t, inst, h, v, hash)
+	c := &protocol.PrepareContentBuilder{SignedHeader: ref, Sender: a.senderB(key, h, ref.Build().Raw())}
+	return interfaces.NewPrepareMessage(c.Build()).ToConsensusRawMessage()
+}
+
+func (a *Adversary) share(key []byte, h uint64) []byte {
+	return a.km.shareAs(key, h, randomseed.RandomSeedToBytes(a.net.w.SeedFor(h)))
+}
+
+func (a *Adversary) mkC(key []byte, t protocol.MessageType, inst, h, v uint64, hash []byte) *interfaces.ConsensusRawMessage {
+	ref := a.refB(t, inst, h, v, hash)
+	c := &protocol.CommitContentBuilder{SignedHeader: ref, Sender: a.senderB(key, h, ref.Build().Raw()), Share: a.share(key, h)}
+	return interfaces.NewCommitMessage(c.Build()).ToConsensusRawMessage()
+}
+
+func (a *Adversary) vcContent(key []byte, t protocol.MessageType, inst, h, v uint64, proof *protocol.PreparedProofBuilder) *protocol.ViewChangeMessageContentBuilder {
+	hdr := &protocol.ViewChangeHeaderBuilder{MessageType: t, InstanceId: primitives.InstanceId(inst), BlockHeight: primitives.BlockHeight(h), View: primitives.View(v), PreparedProof: proof}
+	return &protocol.ViewChangeMessageContentBuilder{SignedHeader: hdr, Sender: a.senderB(key, h, hdr.Build().Raw())}
+}
+
+func (a *Adversary) mkVC(c *protocol.ViewChangeMessageContentBuilder, b *FakeBlock) *interfaces.ConsensusRawMessage {
+	var blk interfaces.Block
+	if b != nil {
+		blk = b
+	}
+	return interfaces.NewViewChangeMessage(c.Build(), blk).ToConsensusRawMessage()
+}
+
+func (a *Adversary) mkNV(key []byte, t protocol.MessageType, inst, h, v uint64, votes []*protocol.ViewChangeMessageContentBuilder, pp *protocol.PreprepareContentBuilder, b *FakeBlock) *interfaces.ConsensusRawMessage {
+	hdr := &protocol.NewViewHeaderBuilder{MessageType: t, InstanceId: primitives.InstanceId(inst), BlockHeight: primitives.BlockHeight(h), View: primitives.View(v), ViewChangeConfirmations: votes}
+	c := &protocol.NewViewMessageContentBuilder{SignedHeader: hdr, Sender: a.senderB(key, h, hdr.Build().Raw()), Message: pp}
+	var blk interfaces.Block
+	if b != nil {
+		blk = b
+	}
+	return interfaces.NewNewViewMessage(c.Build(), blk).ToConsensusRawMessage()
+}
+
+func (a *Adversary) newBlock(h uint64, bad bool) *FakeBlock {
+	a.nextBlock++
+	b := &FakeBlock{H: h, Id: 7000000 + a.nextBlock}
+	if bad {
+		a.BadBlocks[b.Id] = true
+	}
+	return b
+}
+
+// ---- knowledge extracted from the wire
+
+type seenMsg struct {
+	m    interfaces.ConsensusMessage
+	raw  *interfaces.ConsensusRawMessage
+	from []byte
+}
+
+func (a *Adversary) seen() []seenMsg {
+	var r []seenMsg
+	for _, s := range a.net.seen {
+		r = append(r, seenMsg{interfaces.ToConsensusMessage(s.Raw), s.Raw, s.From})
+	}
+	return r
+}
+
+// genuineProof assembles, from signatures seen on the wire (plus Byzantine ones), a prepared proof
+// for (h, v): the leader's PREPREPARE signature and PREPAREs of distinct non-leaders. Returns nil
+// when the wire does not (yet) hold a PREPREPARE of that view.
+func (a *Adversary) genuineProof(h, v uint64) (*protocol.PreparedProofBuilder, *FakeBlock) {
+	var pp *interfaces.PreprepareMessage
+	var ppFromNV *protocol.PreprepareContent
+	var blk *FakeBlock
+	for _, s := range a.seen() {
+		switch m := s.m.(type) {
+		case *interfaces.PreprepareMessage:
+			if uint64(m.BlockHeight()) == h && uint64(m.View()) == v {
+				pp = m
+				blk, _ = m.Block().(*FakeBlock)
+			}
+		case *interfaces.NewViewMessage:
+			if uint64(m.BlockHeight()) == h && uint64(m.View()) == v {
+				ppFromNV = m.Content().Message()
+				blk, _ = m.Block().(*FakeBlock)
+			}
+		}
+	}
+	var hdr *protocol.BlockRef
+	var snd *protocol.SenderSignature
+	if pp != nil {
+		hdr, snd = pp.Content().SignedHeader(), pp.Content().Sender()
+	} else if ppFromNV != nil {
+		hdr, snd = ppFromNV.SignedHeader(), ppFromNV.Sender()
+	} else {
+		return nil, nil
+	}
+	var ps []*protocol.SenderSignatureBuilder
+	have := map[string]bool{}
+	for _, s := range a.seen() {
+		if m, ok := s.m.(*interfaces.PrepareMessage); ok && uint64(m.BlockHeight()) == h && uint64(m.View()) == v &&
+			string(m.Content().SignedHeader().BlockHash()) == string(hdr.BlockHash()) && !have[string(m.SenderMemberId())] {
+			have[string(m.SenderMemberId())] = true
+			ps = append(ps, &protocol.SenderSignatureBuilder{MemberId: m.SenderMemberId(), Signature: m.Content().Sender().Signature()})
+		}
+	}
+	pref := a.refB(protocol.LEAN_HELIX_PREPARE, uint64(hdr.InstanceId()), h, v, hdr.BlockHash())
+	for _, b := range a.byzIds {
+		if !have[string(b)] && string(b) != string(snd.MemberId()) {
+			ps = append(ps, a.senderB(b, h, pref.Build().Raw()))
+		}
+	}
+	return &protocol.PreparedProofBuilder{
+		PreprepareBlockRef: a.refB(protocol.LEAN_HELIX_PREPREPARE, uint64(hdr.InstanceId()), h, v, hdr.BlockHash()),
+		PreprepareSender:   &protocol.SenderSignatureBuilder{MemberId: snd.MemberId(), Signature: snd.Signature()},
+		PrepareBlockRef:    pref,
+		PrepareSenders:     ps,
+	}, blk
+}
+
+func (a *Adversary) leaderOf(v uint64) []byte {
+	return a.net.members[v%uint64(len(a.net.members))].Id
+}
+
+func (a *Adversary) isByz(id []byte) bool { return a.net.byz[string(id)] }
+
+func (a *Adversary) inject(to *RealNode, raw *interfaces.ConsensusRawMessage, op string) {
+	a.net.c.Class("adv/" + op)
+	a.net.lastAdvOp = op
+	a.net.deliverFlight(&Flight{To: to.Id, From: nil, Raw: raw, Byz: true})
+	a.net.lastAdvOp = ""
+}
+
+func (a *Adversary) toAll(raw *interfaces.ConsensusRawMessage, op string) {
+	for _, n := range a.net.order {
+		a.inject(n, raw, op)
+	}
+}
+
+// votes the adversary can put into a NEW_VIEW for (h, v): genuine VIEW_CHANGEs seen on the wire
+// (those addressed to a Byzantine leader) plus Byzantine members' own.
+func (a *Adversary) genuineVotes(h, v uint64, withByz bool, byzProof *protocol.PreparedProofBuilder) []*protocol.ViewChangeMessageContentBuilder {
+	var vcms []*interfaces.ViewChangeMessage
+	have := map[string]bool{}
+	for _, s := range a.seen() {
+		if m, ok := s.m.(*interfaces.ViewChangeMessage); ok && uint64(m.BlockHeight()) == h && uint64(m.View()) == v && !have[string(m.SenderMemberId())] {
+			have[string(m.SenderMemberId())] = true
+			vcms = append(vcms, m)
+		}
+	}
+	votes := interfaces.ExtractConfirmationsFromViewChangeMessages(vcms)
+	if withByz {
+		for _, b := range a.byzIds {
+			votes = append(votes, a.vcContent(b, protocol.LEAN_HELIX_VIEW_CHANGE, a.net.w.Inst, h, v, byzProof))
+		}
+	}
+	return votes
+}
+
+// highest genuine proof among seen votes for (h, v): returns its hash and block
+func (a *Adversary) highestSeenLock(h, v uint64) ([]byte, *FakeBlock, uint64) {
+	var hash []byte
+	var blk *FakeBlock
+	var best uint64
+	found := false
+	for _, s := range a.seen() {
+		if m, ok := s.m.(*interfaces.ViewChangeMessage); ok && uint64(m.BlockHeight()) == h && uint64(m.View()) == v {
+			p := m.Content().SignedHeader().PreparedProof()
+			if p != nil && len(p.Raw()) > 0 {
+				pv := uint64(p.PreprepareBlockRef().View())
+				if !found || pv > best {
+					found, best = true, pv
+					hash = p.PreprepareBlockRef().BlockHash()
+					blk, _ = m.Block().(*FakeBlock)
+				}
+			}
+		}
+	}
+	if !found {
+		return nil, nil, 0
+	}
+	return hash, blk, best
+}
+
+// act performs one Byzantine action chosen by the PRNG among those applicable to the current state.
 func (a *Adversary) act() {
 	net := a.net
-	// replay of old traffic to a random correct node
+	r := net.r
+	inst := net.w.Inst
+	target := net.order[r.Intn(len(net.order))]
+	hv := target.St.HeightView()
+	h, v := uint64(hv.Height()), uint64(hv.View())
+	if h == 0 {
+		return
+	}
+	byz := a.byzIds[r.Intn(len(a.byzIds))]
+	switch r.Intn(16) {
+	case 0: // replay old traffic
+		if len(net.seen) > 0 {
+			s := net.seen[r.Intn(len(net.seen))]
+			a.inject(target, s.Raw, "replay")
+		}
+	case 1: // equivocating leader of the target's view
+		if a.isByz(a.leaderOf(v)) {
+			x, y := a.newBlock(h, false), a.newBlock(h, false)
+			for i, n := range net.order {
+				b := x
+				if i%2 == 1 {
+					b = y
+				}
+				a.inject(n, a.mkPP(a.leaderOf(v), inst, h, v, b), "equivocate-pp")
+			}
+			for _, k := range a.byzIds {
+				if string(k) != string(a.leaderOf(v)) {
+					a.toAll(a.mkP(k, protocol.LEAN_HELIX_PREPARE, inst, h, v, blockHash(x)), "byz-prepare")
+					a.toAll(a.mkP(k, protocol.LEAN_HELIX_PREPARE, inst, h, v, blockHash(y)), "byz-prepare")
+				}
+				a.toAll(a.mkC(k, protocol.LEAN_HELIX_COMMIT, inst, h, v, blockHash(x)), "byz-commit")
+				a.toAll(a.mkC(k, protocol.LEAN_HELIX_COMMIT, inst, h, v, blockHash(y)), "byz-commit")
+			}
+		}
+	case 2: // Byzantine PREPARE / COMMIT for whatever hash is on the wire for (h, v)
+		for _, s := range a.seen() {
+			if m, ok := s.m.(*interfaces.PreprepareMessage); ok && uint64(m.BlockHeight()) == h && uint64(m.View()) == v {
+				hash := m.Content().SignedHeader().BlockHash()
+				if string(byz) != string(a.leaderOf(v)) {
+					a.toAll(a.mkP(byz, protocol.LEAN_HELIX_PREPARE, inst, h, v, hash), "byz-prepare")
+				}
+				a.toAll(a.mkC(byz, protocol.LEAN_HELIX_COMMIT, inst, h, v, hash), "byz-commit")
+				break
+			}
+		}
+	case 3: // bare PREPREPARE in a view above 0 (no NEW_VIEW)
+		if v > 0 && a.isByz(a.leaderOf(v)) {
+			a.toAll(a.mkPP(a.leaderOf(v), inst, h, v, a.newBlock(h, r.Intn(3) == 0)), "bare-pp-gt0")
+		}
+	case 4: // NEW_VIEW whose votes are "from" correct members but signed by the Byzantine leader
+		nv := v + uint64(r.Intn(2))
+		if nv > 0 && a.isByz(a.leaderOf(nv)) {
+			ld := a.leaderOf(nv)
+			var votes []*protocol.ViewChangeMessageContentBuilder
+			for _, m := range net.members {
+				c := a.vcContent(ld, protocol.LEAN_HELIX_VIEW_CHANGE, inst, h, nv, nil)
+				c.Sender.MemberId = m.Id // claims to be m, signature made with the leader's key
+				votes = append(votes, c)
+			}
+			b := a.newBlock(h, false)
+			pp := a.ppContent(ld, protocol.LEAN_HELIX_PREPREPARE, inst, h, nv, blockHash(b))
+			a.toAll(a.mkNV(ld, protocol.LEAN_HELIX_NEW_VIEW, inst, h, nv, votes, pp, b), "nv-forged-votes")
+		}
+	case 5: // NEW_VIEW with genuine votes but an embedded proposal whose signed hash differs from the proven one
+		for nv := v; nv <= v+1; nv++ {
+			if nv > 0 && a.isByz(a.leaderOf(nv)) {
+				ld := a.leaderOf(nv)
+				hash, blk, _ := a.highestSeenLock(h, nv)
+				if hash != nil && blk != nil {
+					votes := a.genuineVotes(h, nv, true, nil)
+					other := a.newBlock(h, false)
+					pp := a.ppContent(ld, protocol.LEAN_HELIX_PREPREPARE, inst, h, nv, blockHash(other)) // signed hash of another block
+					a.toAll(a.mkNV(ld, protocol.LEAN_HELIX_NEW_VIEW, inst, h, nv, votes, pp, blk), "nv-wrong-hash")
+				}
+			}
+		}
+	case 6: // NEW_VIEW by the book from a Byzantine leader (genuine votes, honours the lock) — liveness help
+		for nv := v; nv <= v+1; nv++ {
+			if nv > 0 && a.isByz(a.leaderOf(nv)) {
+				ld := a.leaderOf(nv)
+				votes := a.genuineVotes(h, nv, true, nil)
+				hash, blk, _ := a.highestSeenLock(h, nv)
+				if hash == nil {
+					blk = a.newBlock(h, false)
+					hash = blockHash(blk)
+				}
+				if blk != nil {
+					pp := a.ppContent(ld, protocol.LEAN_HELIX_PREPREPARE, inst, h, nv, hash)
+					a.toAll(a.mkNV(ld, protocol.LEAN_HELIX_NEW_VIEW, inst, h, nv, votes, pp, blk), "nv-by-the-book")
+				}
+			}
+		}
+	case 7: // NEW_VIEW hiding the lock: genuine votes without proofs only + Byzantine votes, fresh block
+		for nv := v; nv <= v+1; nv++ {
+			if nv > 0 && a.isByz(a.leaderOf(nv)) {
+				ld := a.leaderOf(nv)
+				all := a.genuineVotes(h, nv, true, nil)
+				var votes []*protocol.ViewChangeMessageContentBuilder
+				for _, c := range all {
+					if c.SignedHeader.PreparedProof == nil {
+						votes = append(votes, c)
+					}
+				}
+				b := a.newBlock(h, r.Intn(2) == 0)
+				pp := a.ppContent(ld, protocol.LEAN_HELIX_PREPREPARE, inst, h, nv, blockHash(b))
+				a.toAll(a.mkNV(ld, protocol.LEAN_HELIX_NEW_VIEW, inst, h, nv, votes, pp, b), "nv-hide-lock")
+			}
+		}
+	case 8: // outsiders with valid keys send PREPARE and COMMIT for the hash on the wire
+		for _, s := range a.seen() {
+			if m, ok := s.m.(*interfaces.PreprepareMessage); ok && uint64(m.BlockHeight()) == h && uint64(m.View()) == v {
+				hash := m.Content().SignedHeader().BlockHash()
+				for _, o := range a.outsiders {
+					a.toAll(a.mkP(o, protocol.LEAN_HELIX_PREPARE, inst, h, v, hash), "outsider-prepare")
+					a.toAll(a.mkC(o, protocol.LEAN_HELIX_COMMIT, inst, h, v, hash), "outsider-commit")
+				}
+				break
+			}
+		}
+	case 9: // a genuine PREPARE signature re-wrapped as a COMMIT (share copied from any COMMIT of that sender)
+		shares := map[string][]byte{}
+		for _, s := range a.seen() {
+			if m, ok := s.m.(*interfaces.CommitMessage); ok && uint64(m.BlockHeight()) == h {
+				shares[string(m.SenderMemberId())] = m.Content().Share()
+			}
+		}
+		for _, s := range a.seen() {
+			if m, ok := s.m.(*interfaces.PrepareMessage); ok && uint64(m.BlockHeight()) == h && uint64(m.View()) == v {
+				sh, ok := shares[string(m.SenderMemberId())]
+				if !ok {
+					continue
+				}
+				hd := m.Content().SignedHeader()
+				c := &protocol.CommitContentBuilder{
+					SignedHeader: a.refB(hd.MessageType(), uint64(hd.InstanceId()), uint64(hd.BlockHeight()), uint64(hd.View()), hd.BlockHash()),
+					Sender:       &protocol.SenderSignatureBuilder{MemberId: m.SenderMemberId(), Signature: m.Content().Sender().Signature()},
+					Share:        sh,
+				}
+				a.toAll(interfaces.NewCommitMessage(c.Build()).ToConsensusRawMessage(), "prepare-rewrapped-as-commit")
+			}
+		}
+	case 10: // VIEW_CHANGE with a genuine proof but without the block, to a correct leader of the next view
+		for nv := v; nv <= v+1; nv++ {
+			ld := a.leaderOf(nv)
+			if nv > 0 && !a.isByz(ld) {
+				for pv := uint64(0); pv < nv; pv++ {
+					proof, _ := a.genuineProof(h, pv)
+					if proof != nil {
+						c := a.vcContent(byz, protocol.LEAN_HELIX_VIEW_CHANGE, inst, h, nv, proof)
+						if n, ok := net.nodes[string(ld)]; ok {
+							a.inject(n, a.mkVC(c, nil), "vc-proof-without-block")
+						}
+					}
+				}
+			}
+		}
+	case 11: // VIEW_CHANGE by the book from a Byzantine member (helps elections)
+		for nv := v; nv <= v+1; nv++ {
+			ld := a.leaderOf(nv)
+			if nv > 0 && !a.isByz(ld) {
+				if n, ok := net.nodes[string(ld)]; ok {
+					a.inject(n, a.mkVC(a.vcContent(byz, protocol.LEAN_HELIX_VIEW_CHANGE, inst, h, nv, nil), nil), "vc-by-the-book")
+				}
+			}
+		}
+	case 12: // a prepared certificate of ANOTHER instance (same keys, same height) offered as a lock
+		for nv := v; nv <= v+1; nv++ {
+			ld := a.leaderOf(nv)
+			if nv > 0 && !a.isByz(ld) {
+				foreign := inst + 1000
+				bad := a.newBlock(h, true)
+				pv := uint64(0)
+				ppref := a.refB(protocol.LEAN_HELIX_PREPREPARE, foreign, h, pv, blockHash(bad))
+				pref := a.refB(protocol.LEAN_HELIX_PREPARE, foreign, h, pv, blockHash(bad))
+				var ps []*protocol.SenderSignatureBuilder
+				for _, m := range net.members {
+					if string(m.Id) != string(a.leaderOf(pv)) {
+						ps = append(ps, a.senderB(m.Id, h, pref.Build().Raw())) // foreign-instance payload: allowed
+					}
+				}
+				proof := &protocol.PreparedProofBuilder{PreprepareBlockRef: ppref, PreprepareSender: a.senderB(a.leaderOf(pv), h, ppref.Build().Raw()), PrepareBlockRef: pref, PrepareSenders: ps}
+				c := a.vcContent(byz, protocol.LEAN_HELIX_VIEW_CHANGE, inst, h, nv, proof)
+				if n, ok := net.nodes[string(ld)]; ok {
+					a.inject(n, a.mkVC(c, bad), "vc-foreign-instance-proof")
+				}
+			}
+		}
+	case 13: // Byzantine leader proposes, in view 0 or by NEW_VIEW, a block every correct consumer rejects
+		if a.isByz(a.leaderOf(v)) && v == 0 {
+			a.toAll(a.mkPP(a.leaderOf(v), inst, h, v, a.newBlock(h, true)), "pp-bad-block")
+			for _, k := range a.byzIds {
+				_ = k
+			}
+		}
+	case 14: // wrong type tags: a COMMIT-typed header inside a PREPARE envelope and vice versa, signed by a Byzantine member
+		for _, s := range a.seen() {
+			if m, ok := s.m.(*interfaces.PreprepareMessage); ok && uint64(m.BlockHeight()) == h && uint64(m.View()) == v {
+				hash := m.Content().SignedHeader().BlockHash()
+				a.toAll(a.mkP(byz, protocol.LEAN_HELIX_COMMIT, inst, h, v, hash), "type-mismatch-prepare")
+				a.toAll(a.mkC(byz, protocol.LEAN_HELIX_PREPARE, inst, h, v, hash), "type-mismatch-commit")
+				break
+			}
+		}
+	default: // mutate one aspect of a message seen on the wire and deliver it
+		a.mutate(target)
+	}
+}
+
+// mutate takes a message from the wire, changes exactly one aspect, and delivers it.
+func (a *Adversary) mutate(target *RealNode) {
+	net := a.net
+	r := net.r
 	if len(net.seen) == 0 {
 		return
 	}
-	s := net.seen[net.r.Intn(len(net.seen))]
-	n := net.order[net.r.Intn(len(net.order))]
-	net.c.Class("adv/replay")
-	net.deliverFlight(&Flight{To: n.Id, From: s.From, Raw: s.Raw, Byz: true})
+	s := net.seen[r.Intn(len(net.seen))]
+	m := interfaces.ToConsensusMessage(s.Raw)
+	inst, h, v := uint64(m.InstanceId()), uint64(m.BlockHeight()), uint64(m.View())
+	byz := a.byzIds[r.Intn(len(a.byzIds))]
+	op := r.Intn(6)
+	resign := r.Intn(2) == 0 // re-sign with a Byzantine key (sender becomes Byzantine) or keep the original signature (which then no longer matches)
+	switch op {
+	case 0:
+		v += uint64(1 + r.Intn(2))
+	case 1:
+		h++
+	case 2:
+		inst++
+	case 3:
+		v = []uint64{1 << 63, ^uint64(0), 1 << 32}[r.Intn(3)]
+	}
+	name := fmt.Sprintf("mutate/%T/op%d/resign%v", m, op, resign)
+	switch m := m.(type) {
+	case *interfaces.PrepareMessage:
+		hd := m.Content().SignedHeader()
+		hash := hd.BlockHash()
+		if op == 4 {
+			hash = []byte{1, 2, 3}
+		}
+		if resign || op == 5 {
+			key := byz
+			if op == 5 {
+				key = a.outsiders[0]
+			}
+			a.inject(target, a.mkP(key, protocol.LEAN_HELIX_PREPARE, inst, h, v, hash), name)
+		} else {
+			c := &protocol.PrepareContentBuilder{SignedHeader: a.refB(protocol.LEAN_HELIX_PREPARE, inst, h, v, hash), Sender: &protocol.SenderSignatureBuilder{MemberId: m.SenderMemberId(), Signature: m.Content().Sender().Signature()}}
+			a.inject(target, interfaces.NewPrepareMessage(c.Build()).ToConsensusRawMessage(), name)
+		}
+	case *interfaces.CommitMessage:
+		hd := m.Content().SignedHeader()
+		hash := hd.BlockHash()
+		if op == 4 {
+			hash = []byte{1, 2, 3}
+		}
+		if resign || op == 5 {
+			key := byz
+			if op == 5 {
+				key = a.outsiders[0]
+			}
+			a.inject(target, a.mkC(key, protocol.LEAN_HELIX_COMMIT, inst, h, v, hash), name)
+		} else {
+			c := &protocol.CommitContentBuilder{SignedHeader: a.refB(protocol.LEAN_HELIX_COMMIT, inst, h, v, hash), Sender: &protocol.SenderSignatureBuilder{MemberId: m.SenderMemberId(), Signature: m.Content().Sender().Signature()}, Share: m.Content().Share()}
+			a.inject(target, interfaces.NewCommitMessage(c.Build()).ToConsensusRawMessage(), name)
+		}
+	case *interfaces.PreprepareMessage:
+		blk, _ := m.Block().(*FakeBlock)
+		if op == 4 {
+			blk = a.newBlock(h, false)
+		}
+		if resign {
+			a.inject(target, a.mkPP(byz, inst, h, v, blk), name)
+		} else {
+			hd := m.Content().SignedHeader()
+			c := &protocol.PreprepareContentBuilder{SignedHeader: a.refB(protocol.LEAN_HELIX_PREPREPARE, inst, h, v, hd.BlockHash()), Sender: &protocol.SenderSignatureBuilder{MemberId: m.SenderMemberId(), Signature: m.Content().Sender().Signature()}}
+			var b interfaces.Block
+			if blk != nil {
+				b = blk
+			}
+			a.inject(target, interfaces.NewPreprepareMessage(c.Build(), b).ToConsensusRawMessage(), name)
+		}
+	case *interfaces.ViewChangeMessage:
+		key := byz
+		if op == 5 {
+			key = a.outsiders[1]
+		}
+		blk, _ := m.Block().(*FakeBlock)
+		var proof *protocol.PreparedProofBuilder
+		if cs := interfaces.ExtractConfirmationsFromViewChangeMessages([]*interfaces.ViewChangeMessage{m}); len(cs) == 1 {
+			proof = cs[0].SignedHeader.PreparedProof
+		}
+		if op == 4 && proof != nil { // drop a prepare sender from the proof
+			if len(proof.PrepareSenders) > 0 {
+				proof.PrepareSenders = proof.PrepareSenders[1:]
+			}
+		}
+		if ld, ok := net.nodes[string(a.leaderOf(v))]; ok {
+			target = ld
+		}
+		a.inject(target, a.mkVC(a.vcContent(key, protocol.LEAN_HELIX_VIEW_CHANGE, inst, h, v, proof), blk), name)
+	case *interfaces.NewViewMessage:
+		// re-deliver as is (a NEW_VIEW from the wire at another moment) — structural mutations are the dedicated strategies
+		a.inject(target, s.Raw, "replay-newview")
+	}
 }
